@@ -9,6 +9,7 @@ CONSTANTS
   HookCurrent = FALSE
   SwapGuarded = FALSE
   SupervisorOrClosed = FALSE
+  RetryByEpoch = FALSE
   AllowClose = TRUE
 VIEW View
 INVARIANTS TokenPerDial NoStreamDetached CallersSurvive NotificationsOnce NoPanic NoDialAfterClose NoCallerParkedWhenClosed NoSupervisorParkedWhenClosed SilentAfterDisconnect
